@@ -174,7 +174,7 @@ def run(rec):
     rec.assume("call sequences: ALL sequences of length <= %d over {iterate, iterate_n(n) with n a solver variable in [0, 2], run(1 ms), sample, get_progress, fetch (twice), finalize, set-up} that respect the life cycle (after finalize only finalize or a new set-up); using a released engine is outside the property" % L)
     rec.assume("wall-clock readings of engineexport_run are arbitrary non-decreasing integers (stub of system_clock::now); runs are cut at 3 loop iterations (unwinding bound, counted in paths_cut_at_unwinding_bound)")
     rec.assume("requested times are solver variables; the Euler state is symbolic; stochastic engines run from the concrete catalogue state with arbitrary random draws")
-    rec.assume("fixed-step completion count: proved as floor(t_max/dt)+1 for symbolic dt and t_max (same harness as C09)")
+    rec.assume("fixed-step completion count: proved as floor(t_max/dt)+1 for symbolic dt and t_max (same harness as C09), without sampling and under each sampling policy with requested times / interval that are solver variables too (an explicit t_max later than the last requested time included)")
     for fn in ("engineexport_initialize_grid/graph, iterate, iterate_n, run, sample, get_progress, get_nsamples, get_trajectory, get_tsample, finalize",
                "SimulationAlgorithm*Base::Init, *::Iterate", "GenerateStochasticDistribution (progress of the correction loop)",
                "LibRDEngine.setup/iterate/is_complete (py-sym leg)"):
@@ -189,7 +189,10 @@ def run(rec):
             items.append((opt, sd, ss[k:k + per]))
     rec.parallel(_work, items)
     # termination of fixed-step runs: number of steps
-    rec.parallel(_steps, [("euler", "grid"), ("tauleap", "graph"), ("euler", "graph"), ("tauleap", "grid")])
+    # ... whatever the sampling policy: with requested times that all lie BEFORE an explicit t_max, the run still goes on to t_max
+    rec.parallel(_steps, [("euler", "grid"), ("tauleap", "graph"), ("euler", "graph"), ("tauleap", "grid"),
+                          ("euler", "grid", "on_t_sample", 2), ("euler", "graph", "on_t_sample", 1), ("tauleap", "grid", "on_t_sample", 1), ("tauleap", "graph", "on_t_sample", 2),
+                          ("euler", "graph", "on_interval", 0), ("tauleap", "grid", "on_iteration", 0)])
     # clean slate for the stochastic set-up path too: a second set-up (initial-state processing included) must not read
     # process-lifetime storage written during an earlier simulation, whatever kind that one was
     rec.parallel(_stale, [("gillespie", ("grid", 2, 1, 1, 0), "gillespie", ("grid", 2, 1, 1, 0), "auto"), ("tauleap", ("graph", "pair"), "gillespie", ("grid", 2, 1, 1, 1), "redist"),
@@ -207,5 +210,6 @@ def _stale(rec, item):
 
 
 def _steps(rec, item):
-    opt, kind = item
-    check_sampling(rec, opt, kind, "no_sampling", 4, 0, "symbolic", False, ())
+    opt, kind = item[0], item[1]
+    policy, n_req = (item[2], item[3]) if len(item) > 2 else ("no_sampling", 0)
+    check_sampling(rec, opt, kind, policy, 4, n_req, "symbolic", False, ())
